@@ -1103,6 +1103,10 @@ pub fn run() {
                     ("interrupt key while running", Some("loop.asm"), "120x40", vec!["^a", "WAIT:0.3", "^e", "WAIT:0.3", "^e", "^c"]),
                     ("the quit command ends the session", Some("loop.asm"), "120x40", vec!["^a", "WAIT:0.3", "quit", "ENTER"]),
                     ("the quit command after a rejected line", None, "90x30", vec!["bogus", "ENTER", "x", "quit", "ENTER"]),
+                    ("mouse reports arrive", Some("loop.asm"), "120x40", vec!["MOUSE", "ENTER", "^a", "MOUSE", "WAIT:0.3", "^c"]),
+                    ("quit pasted together with more keys", None, "100x30", vec!["BURST:quit\\rx"]),
+                    ("commands pasted, quit in the middle", Some("loop.asm"), "100x30", vec!["BURST:FC = 1\\rquit\\rshow memory\\r"]),
+                    ("CTRL+C pasted with keys behind it", None, "100x30", vec!["BURST:ab\\x03cd"]),
                     ("terminal resized while auto-run is on", Some("loop.asm"), "120x40", vec!["^a", "WAIT:0.3", "RESIZE:76x28", "RESIZE:40x10", "RESIZE:1x1", "RESIZE:250x100", "set ", "RESIZE:100x30", "RESIZE:100x32", "WAIT:0.3", "^c"]),
                     ("long listing, set help, resizes", Some("big.asm"), "100x34", vec!["ENTER", "ENTER", "ENTER", "set I1 = 2", "RESIZE:100x30", "RESIZE:100x32", "RESIZE:76x28", "ENTER", "x", "^c"]),
                 ];
@@ -1199,7 +1203,7 @@ pub fn run() {
     ctx.set("startup_sessions", startups);
     ctx.set("long_session_keys", long_keys);
     ctx.set("distinct_nontrivial", states + cmd_accepted);
-    ctx.set("rule", "editor: BFS by replay over a 22-key alphabet (characters incl. multi-byte, Enter, Tab, BackTab, arrows, Home/End, Backspace/Delete), complete key-sequence tree to the depth (no deduplication; distinct visible states are only counted); every key goes through the real Tui::handle_event and is compared with REF-EDIT / REF-CMD and a twin Machine driven by library calls; every transition renders the real Interface into a Buffer; rendering: every chosen editor state x all widths 76..250 and heights 28..100, 17 session states x all sizes 1x1..250x100 (drawn after maintain()), long inputs around the widget width and submitted lines of up to 60 000 characters; start-up sessions (program x initial configuration); sessions of 320 / 1 200 submitted lines; every key with every modifier combination 300 times; twelve scripted sessions of the real binary under a pseudo terminal (incl. terminal resizes and the quit command); commands: the sentence family and all short strings typed and submitted; control keys: all ordered pairs after 20 machine states");
+    ctx.set("rule", "editor: BFS by replay over a 22-key alphabet (characters incl. multi-byte, Enter, Tab, BackTab, arrows, Home/End, Backspace/Delete), complete key-sequence tree to the depth (no deduplication; distinct visible states are only counted); every key goes through the real Tui::handle_event and is compared with REF-EDIT / REF-CMD and a twin Machine driven by library calls; every transition renders the real Interface into a Buffer; rendering: every chosen editor state x all widths 76..250 and heights 28..100, 17 session states x all sizes 1x1..250x100 (drawn after maintain()), long inputs around the widget width and submitted lines of up to 60 000 characters; start-up sessions (program x initial configuration); sessions of 320 / 1 200 submitted lines; every key with every modifier combination 300 times; sixteen scripted sessions of the real binary under a pseudo terminal (incl. terminal resizes, the quit command, mouse reports, pasted bursts); commands: the sentence family and all short strings typed and submitted; control keys: all ordered pairs after 20 machine states");
     ctx.set("exhaustive", true);
     ctx.set("bounds", format!("editor depth {} ({} distinct visible states, {} key sequences, {} distinct screen digests); {} render calls; {} submitted command lines ({} executed as documented commands); {} control-key runs", depth, states, transitions, digests, renders, cmd_runs, cmd_accepted, ctl_runs));
     ctx.set("render_calls", renders);
